@@ -48,6 +48,16 @@ class Tok:
         return hash(self.name)
 
 
+def _walk_own(fn: ast.AST):
+    """Nodes of a function, not descending into nested functions / lambdas / classes."""
+    stack = list(ast.iter_child_nodes(fn))
+    while stack:
+        n = stack.pop()
+        yield n
+        if not isinstance(n, (ast.FunctionDef, ast.AsyncFunctionDef, ast.Lambda, ast.ClassDef)):
+            stack.extend(ast.iter_child_nodes(n))
+
+
 def _mark_breaks(body: list[ast.stmt], marker: str) -> list[ast.stmt]:
     """Copy of a loop body in which every `break` that belongs to THIS loop first sets env[marker] = True."""
     import copy
@@ -90,6 +100,19 @@ class PyEval(MiniEval):
             return BUILTIN_TYPES[ident]
         if ident in ("True", "False", "None"):
             return {"True": True, "False": False, "None": None}[ident]
+        # module-level literal of the interpreted function's module (`_TABLE = {...}`): one shared object per evaluator
+        mc = self.__dict__.setdefault("_modconst", {})
+        if ident in mc:
+            return mc[ident]
+        for st in getattr(self.module, "tree", ast.Module(body=[], type_ignores=[])).body:
+            tgt = st.targets[0] if isinstance(st, ast.Assign) and len(st.targets) == 1 else (st.target if isinstance(st, ast.AnnAssign) else None)
+            val = getattr(st, "value", None)
+            if isinstance(tgt, ast.Name) and tgt.id == ident and isinstance(val, (ast.Dict, ast.List, ast.Set, ast.Tuple, ast.Constant)):
+                try:
+                    mc[ident] = self.ev(val, {})
+                except Unsupported:
+                    break
+                return mc[ident]
         return Opaque(ident)
 
     def attr(self, value: Any, name: str, node: ast.Attribute, env: dict) -> Any:
@@ -512,6 +535,24 @@ class PyEval(MiniEval):
                 cls = ""
                 if isinstance(st.exc, ast.Call):
                     cls = dotted(st.exc.func).split(".")[-1]
+                    # `raise self._build_error(...)`: a repository helper that builds the exception -- its return annotation
+                    # names the class that is raised
+                    helper = None
+                    try:
+                        if isinstance(st.exc.func, ast.Attribute):
+                            recv = self.ev(st.exc.func.value, env)
+                            if isinstance(recv, Tok):
+                                for c_ in recv.attrs.get("__classes__", ()):
+                                    helper = helper or c_.find_method(st.exc.func.attr)
+                        elif isinstance(st.exc.func, ast.Name):
+                            fq = self.idx.funcs.get(self.idx.resolve_name(self.module, st.exc.func.id))
+                            helper = fq if fq is not None and fq.cls is None else None
+                    except Unsupported:
+                        helper = None
+                    if helper is not None and helper.node.returns is not None:
+                        cls = ast.unparse(helper.node.returns).strip("'\"").split(".")[-1].split("[")[0]
+                elif isinstance(st.exc, ast.Name) and isinstance(env.get(st.exc.id), Tok) and env[st.exc.id].attrs.get("__class__"):
+                    cls = env[st.exc.id].attrs["__class__"]
                 return ("raise", cls or ast.unparse(st)[:80])
             if getattr(self, "lenient", False) and isinstance(st, (ast.Assign, ast.AnnAssign, ast.AugAssign, ast.Expr)):
                 # lenient mode (opt-in): a straight-line statement that cannot be evaluated (it builds a diagnostic, say)
@@ -819,6 +860,9 @@ class PyEval(MiniEval):
             self.depth -= 1
         if out[0] == "raise":
             raise Raised(f"{f.name}: {out[1]}", str(out[1]))
+        if "__yields__" in new or any(isinstance(x, (ast.Yield, ast.YieldFrom)) for x in _walk_own(f.node)):
+            # a generator function: evaluated eagerly, its result is the list of yielded values (callers iterate it)
+            return list(new.get("__yields__", []))
         return out[1] if out[0] == "return" else None
 
     def call_method(self, f: FuncInfo, recv: Any, node: ast.Call, env: dict) -> Any:
@@ -848,6 +892,9 @@ class PyEval(MiniEval):
             self.depth -= 1
         if out[0] == "raise":
             raise Raised(f"{f.name}: {out[1]}", str(out[1]))
+        if "__yields__" in new or any(isinstance(x, (ast.Yield, ast.YieldFrom)) for x in _walk_own(f.node)):
+            # a generator function: evaluated eagerly, its result is the list of yielded values (callers iterate it)
+            return list(new.get("__yields__", []))
         return out[1] if out[0] == "return" else None
 
     def call_dunder(self, f: FuncInfo, recv: Any, vals: list, env: dict) -> Any:
@@ -866,6 +913,9 @@ class PyEval(MiniEval):
             self.depth -= 1
         if out[0] == "raise":
             raise Raised(f"{f.name}: {out[1]}", str(out[1]))
+        if "__yields__" in new or any(isinstance(x, (ast.Yield, ast.YieldFrom)) for x in _walk_own(f.node)):
+            # a generator function: evaluated eagerly, its result is the list of yielded values (callers iterate it)
+            return list(new.get("__yields__", []))
         return out[1] if out[0] == "return" else None
 
     def run_function(self, f: FuncInfo, env: dict) -> tuple[str, Any]:
